@@ -143,7 +143,7 @@ func (fr *frame) staticCall(f *ssa.Function, bindings []Val, in ssa.Instruction,
 	return fr.unknownCall(key, f.Signature, st, reach, pos)
 }
 
-// smallHelper: at most 80 instructions, no loop (no block reaches itself), no go/select/defer, no
+// smallHelper: at most 200 instructions, no loop (no block reaches itself), no go/select/defer, no
 // direct self call.
 func smallHelper(f *ssa.Function) bool {
 	n := 0
@@ -160,7 +160,7 @@ func smallHelper(f *ssa.Function) bool {
 			}
 		}
 	}
-	if n > 80 {
+	if n > 200 {
 		return false
 	}
 	// cycle detection
@@ -195,9 +195,15 @@ func (fr *frame) unknownCall(key string, sig *types.Signature, st *State, reach 
 		o.Src = "call to " + key + " without contract may modify anything"
 	}
 	keep := map[string]Term{}
+	// ghost variables exist from the start (so that "the callee cannot write it" can keep them)
+	for gn, gsrt := range fc.e.specs.GhostVars {
+		if _, srt, err := fc.e.resolveType(gsrt, ""); err == nil {
+			fc.heapGet(st, "GV"+gn, srt)
+		}
+	}
 	if f := fc.e.funcs[key]; f != nil {
 		for n, v := range st.heap {
-			if strings.HasPrefix(n, "G$") && !fc.e.mayWriteGhost(f, n) {
+			if (strings.HasPrefix(n, "G$") || strings.HasPrefix(n, "GV$")) && !fc.e.mayWriteGhost(f, n) {
 				keep[n] = v
 			}
 		}
@@ -229,8 +235,8 @@ func (fr *frame) havocAll(st *State) {
 	}
 	olds := map[string]Term{}
 	for k, v := range st.heap {
-		if strings.HasPrefix(k, "VIS$") || strings.HasPrefix(k, "SPOS$") {
-			continue
+		if strings.HasPrefix(k, "VIS$") || strings.HasPrefix(k, "SPOS$") || strings.HasPrefix(k, "EG$") {
+			continue // iteration ghosts and errgroup records: written by the engine's own models only
 		}
 		olds[k] = v
 		st.heap[k] = fc.fresh(k+"_h", v.Sort)
@@ -407,7 +413,34 @@ func (fr *frame) applyContract(ct *FuncContract, f *ssa.Function, sig *types.Sig
 		if fc.c != nil && !fc.modEvery {
 			fc.oblig("frame", "frame.call."+cname, "false", reach, pos, nil).Src = "callee modifies everything"
 		}
+		// "everything" is everything real code can write: ghost state survives when no function the
+		// callee can reach is a writer of it (writers are the contracts that name it in modifies / ghostset)
+		keepGhost := map[string]Term{}
+		if f != nil {
+			for gn, gsrt := range fc.e.specs.GhostVars {
+				if _, srt, err := fc.e.resolveType(gsrt, ""); err == nil {
+					fc.heapGet(st, "GV"+gn, srt)
+				}
+			}
+			for n, v := range st.heap {
+				if (strings.HasPrefix(n, "G$") || strings.HasPrefix(n, "GV$")) && !fc.e.mayWriteGhost(f, n) && !fc.e.ghostWriters(n)[ct.Key] {
+					keepGhost[n] = v
+				} else if os.Getenv("GOWP_DEBUG_GHOST") != "" && strings.HasPrefix(n, "GV$") {
+					var hit []string
+					w := fc.e.ghostWriters(n)
+					for k := range fc.e.reachable(f) {
+						if w[k] {
+							hit = append(hit, k)
+						}
+					}
+					fmt.Fprintln(os.Stderr, "ghost", n, "not kept across", ct.Key, "writers reached:", hit)
+				}
+			}
+		}
 		fr.havocAll(st)
+		for n, v := range keepGhost {
+			st.heap[n] = v
+		}
 	}
 	var frameGoals []string
 	for _, m := range ct.Modifies {
